@@ -999,7 +999,7 @@ func ruleLockAtomic(c *Ctx) {
 				if !ok {
 					return true
 				}
-				if m.stateAt[ifs][0] != 2 {
+				if m.stateAt[ifs.Cond][0] != 2 {
 					return true
 				}
 				// the re-validation must re-read what the earlier sections established: calls to the unlocked helpers or map/slice reads
@@ -1019,6 +1019,16 @@ func ruleLockAtomic(c *Ctx) {
 				}
 				scan(ifs.Init)
 				scan(ifs.Cond)
+				// locals of the condition that were computed (under the same write lock) from guarded state
+				ldefs := singleDefs(info, m.fd.Body)
+				ast.Inspect(ifs.Cond, func(k ast.Node) bool {
+					if id, ok := k.(*ast.Ident); ok {
+						if d, ok := ldefs[info.Uses[id]]; ok && d.rhs != nil && m.stateAt[ifs.Cond][0] == 2 {
+							scan(d.rhs)
+						}
+					}
+					return true
+				})
 				if reads > 0 {
 					revalidates = true
 				}
@@ -1037,7 +1047,7 @@ func ruleLockAtomic(c *Ctx) {
 			}
 			ast.Inspect(m.fd.Body, func(n ast.Node) bool {
 				ifs, ok := n.(*ast.IfStmt)
-				if !ok || m.stateAt[ifs][0] != 2 {
+				if !ok || m.stateAt[ifs.Cond][0] != 2 {
 					return true
 				}
 				for _, part := range []ast.Node{ifs.Init, ifs.Cond} {
@@ -1062,6 +1072,34 @@ func ruleLockAtomic(c *Ctx) {
 				}
 			}
 			sort.Strings(missing)
+			// (b) re-decide: under the write lock the method compares against re-read guarded state and, when that
+			// shows the earlier decision is stale, releases the lock and calls itself again (no lock held at the call)
+			redecides := false
+			ast.Inspect(m.fd.Body, func(n ast.Node) bool {
+				ifs, ok := n.(*ast.IfStmt)
+				if !ok || m.stateAt[ifs.Cond][0] != 2 {
+					return true
+				}
+				ast.Inspect(ifs.Body, func(k ast.Node) bool {
+					call, ok := k.(*ast.CallExpr)
+					if !ok {
+						return true
+					}
+					sel, ok := call.Fun.(*ast.SelectorExpr)
+					if !ok || sel.Sel.Name != mn {
+						return true
+					}
+					if id, ok := ast.Unparen(sel.X).(*ast.Ident); ok && info.Uses[id] == m.recv && m.stateAt[call][1] == 0 {
+						redecides = true
+					}
+					return true
+				})
+				return true
+			})
+			if revalidates && redecides {
+				c.ok(key, m.fd.Pos(), "re-reads guarded state under the write lock and re-decides (unlocked self-call) when the earlier decision is stale")
+				continue
+			}
 			if !revalidates || len(missing) > 0 {
 				c.bad(key, m.fd.Pos(), "decides in earlier critical sections (%s) and then writes %v under a separately acquired lock without re-checking them: two concurrent calls can both pass the check", strings.Join(sections, ", "), missing)
 			} else {
